@@ -264,12 +264,24 @@ func fakeDoneWait(c *kit.Case) {
 			before := rn.fires
 			rn.tick()
 			if rn.fires > before {
-				ft.Done()
-				// Done() has returned, so the signal is there before Wait starts: the timeout is a
-				// watchdog that cannot win unless this goroutine is frozen for a minute between two
-				// adjacent statements of Wait
-				if err := ft.Wait(time.Minute); err != nil {
-					c.Viol("C12/fake-ticker/wait-error-after-done", "FakeTicker.Wait returned "+err.Error()+" although Done() had been called", rn.witness(""))
+				// Done() from a helper goroutine, Wait() here: the way go-zero's own tests pair
+				// them; holds for a buffered as well as for a rendezvous implementation of Done.
+				// With a Done() under way the timeout of Wait is a mere watchdog.
+				doneRet := make(chan struct{})
+				go func() {
+					ft.Done()
+					close(doneRet)
+				}()
+				err := ft.Wait(time.Minute)
+				select {
+				case <-doneRet:
+				case <-time.After(time.Minute):
+					c.Inconclusive("FakeTicker.Done did not return within the watchdog")
+					return
+				}
+				if err != nil {
+					c.Inconclusive("FakeTicker.Wait ran into its one-minute timeout although Done() was under way: " + err.Error())
+					return
 				}
 				c.Obs("fake_done_wait_pairs", 1)
 			}
